@@ -1,5 +1,6 @@
 import Pycoin.Proofs.AddressLemmas
 import Pycoin.Proofs.RealEnv
+import Pycoin.Model.TxInAddr
 /-!
 C08 — addresses and output scripts are in one-to-one correspondence on every network.
 
@@ -605,5 +606,65 @@ theorem toy_laws : CodecLaws toyEnv where
 example : parseAddress toyEnv net_btc (toyEnv.b58cEnc ([0] ++ List.replicate 20 7)) = .ok (some (.p2pkh (List.replicate 20 7))) :=
   (C08_addr_rt_b58 toyEnv toy_laws.toB58Laws net_btc (by decide) (by decide) (by decide) (.p2pkh (List.replicate 20 7)) rfl (by decide) _
     (by rfl)).2.1
+
+
+/-! ## the rest of the contract API, `Contract.override_network`, the registry -/
+
+/-- C08.contract_p2s: the script `contract.for_p2s(u)` builds is the P2SH script of `hash160(u)`: it classifies as
+P2SH with that hash, rebuilds byte for byte, and its address on any network is `address.for_p2s(u)`; likewise
+`for_p2s_wit` with SHA-256 and P2WSH -/
+theorem C08_contract_p2s (env : Env) (net : Network) (u : Bytes)
+    (h20 : (env.hash160 u).length = 20) (h32 : (env.sha256 u).length = 32) :
+    (∃ s, contractForP2s env u = .ok s ∧ infoForScript s = .ok (.p2sh (env.hash160 u)) ∧
+      forScript env net s = forP2s env net u) ∧
+    (∃ s, contractForP2sWit env u = .ok s ∧ infoForScript s = .ok (.p2shWit (env.sha256 u)) ∧
+      forScript env net s = forP2sWit env net u) := by
+  constructor
+  · have hc := C08_classification_complete (.p2sh (env.hash160 u)) (by simp [Info.wellSized, h20])
+    have hl := C08_classification_lossless _ _ hc
+    refine ⟨stdScript (.p2sh (env.hash160 u)), hl, hc, ?_⟩
+    simp [forScript, hc, forScriptInfo, forP2s, bind, Except.bind]
+  · have hc := C08_classification_complete (.p2shWit (env.sha256 u)) (by simp [Info.wellSized, h32])
+    have hl := C08_classification_lossless _ _ hc
+    refine ⟨stdScript (.p2shWit (env.sha256 u)), hl, hc, ?_⟩
+    simp [forScript, hc, forScriptInfo, forP2sWit, bind, Except.bind]
+
+/-- C08.override_network: moving a `Contract` to another network keeps its script (the info is handed over as it is)
+and gives it the address that network produces for that info -/
+theorem C08_override_network (env : Env) (n₁ n₂ : Network) (i : Info) :
+    (overrideContract env n₂ i).1 = contractScript i ∧ (overrideContract env n₂ i).2 = contractAddress env n₂ i ∧
+    (overrideContract env n₂ i).1 = (overrideContract env n₁ i).1 := ⟨rfl, rfl, rfl⟩
+
+/-- C08.registry_table: every module under `pycoin/symbols/` is found by its own name and by its network's symbol in
+any letter case the lookup folds (re-decided over the generated table on every run); `network_codes()` therefore lists
+one symbol per module -/
+theorem C08_registry_table :
+    (∀ n ∈ all, networkForNetcode n.module = some n ∧ networkForNetcode (upperAscii n.symbol) = some n) ∧
+    networkCodes.length = all.length ∧ networkCodes.Nodup := by
+  refine ⟨by decide +kernel, by simp [networkCodes], by decide +kernel⟩
+
+/-- C08.registry_sound: what the registry returns for a symbol is a registered network carrying that symbol -/
+theorem C08_registry_sound (t : String) (n : Network) (h : networkForNetcode t = some n) :
+    n ∈ all ∧ upperAscii n.symbol = upperAscii t ∧ n.module = lowerAscii t := by
+  unfold networkForNetcode at h
+  have hm := List.mem_of_find?_eq_some h
+  have hp := List.find?_some h
+  simp only [Bool.and_eq_true, decide_eq_true_eq] at hp
+  exact ⟨hm, hp.2, hp.1⟩
+
+/-- C08.txin_address: the address `TxIn.address` reports is the address of the key the input's script reveals
+(`key.address()` of that SEC on that network); an input that reveals none reports `(unknown)`, the coinbase input
+`(coinbase)` — never another key's address -/
+theorem C08_txin_address (env : Env) (net : Network) (script : Bytes) :
+    (∀ sec, txInPublicKeySec false script = .ok (some sec) → sec ≠ [] →
+      txInAddress env net false script = keyAddress env net sec) ∧
+    (txInPublicKeySec false script = .ok none → txInAddress env net false script = .ok (some "(unknown)")) ∧
+    txInAddress env net true script = .ok (some "(coinbase)") ∧ txInPublicKeySec true script = .ok none := by
+  refine ⟨?_, ?_, rfl, rfl⟩
+  · intro sec h hne
+    have : sec.isEmpty = false := by cases sec <;> simp_all
+    simp [txInAddress, h, this]
+  · intro h
+    simp [txInAddress, h]
 
 end Pycoin.Addr
